@@ -111,7 +111,9 @@ class DBusClientConnection (txdbus.protocol.BasicDBusProtocol):
                 factory._failed(reason)
             return
 
-        for cb in self._dcCallbacks:
+        # a callback may deregister itself (or another one) while the loss is
+        # dispatched: walk a copy, so that no registered callback is skipped
+        for cb in list(self._dcCallbacks):
             cb(self, reason)
 
         # an errback may issue a new call (a caller retrying): it must not
